@@ -33,6 +33,7 @@ namespace ip {
 	basic_resolver<Protocol>::basic_resolver(io_context& ios)
 		: m_ios(&ios)
 		, m_timer(ios)
+		, m_alive(std::make_shared<bool>(true))
 	{}
 
 	// complete the pending lookups with operation_aborted instead of silently
@@ -82,8 +83,7 @@ namespace ip {
 				, hostname, service);
 			result_t res{t, ec, std::move(ips), std::move(handler) };
 			m_queue.insert(m_queue.begin(), std::move(res));
-			m_timer.expires_at(m_queue.front().completion_time);
-			m_timer.async_wait(aux::make_malloc(std::bind(&basic_resolver::on_lookup, this, _1)));
+			wait_for_front();
 			return;
 		}
 		ec.clear();
@@ -108,8 +108,22 @@ namespace ip {
 		result_t res{ completion_time, ec, std::move(ips), std::move(handler)};
 		m_queue.emplace_back(std::move(res));
 
+		wait_for_front();
+	}
+
+	template<typename Protocol>
+	void basic_resolver<Protocol>::wait_for_front()
+	{
 		m_timer.expires_at(m_queue.front().completion_time);
-		m_timer.async_wait(aux::make_malloc(std::bind(&basic_resolver::on_lookup, this, _1)));
+		// the timer's completion is posted when it fires. The resolver may be
+		// destroyed before that posted completion runs
+		if (!m_alive) m_alive = std::make_shared<bool>(true); // moved-from
+		std::weak_ptr<bool> alive = m_alive;
+		m_timer.async_wait(aux::make_malloc([this, alive](boost::system::error_code const& ec)
+		{
+			if (alive.expired()) return;
+			on_lookup(ec);
+		}));
 	}
 
 	template<typename Protocol>
@@ -124,8 +138,7 @@ namespace ip {
 		// complete a lookup whose time has come, otherwise wait for it.
 		if (m_queue.front().completion_time > chrono::high_resolution_clock::now())
 		{
-			m_timer.expires_at(m_queue.front().completion_time);
-			m_timer.async_wait(aux::make_malloc(std::bind(&basic_resolver::on_lookup, this, _1)));
+			wait_for_front();
 			return;
 		}
 
@@ -142,8 +155,7 @@ namespace ip {
 		// the handler may have called cancel()
 		if (m_queue.empty()) return;
 
-		m_timer.expires_at(m_queue.front().completion_time);
-		m_timer.async_wait(aux::make_malloc(std::bind(&basic_resolver::on_lookup, this, _1)));
+		wait_for_front();
 	}
 
 	template<typename Protocol>
